@@ -24,7 +24,11 @@ Ties per case (DESIGN.md §6/C01, design_notes/C01.md):
   cap): no record is emitted on either side;  `default=` glue: what non-native items turn into;
 * the kind of row *object* (`obj`: built from a tuple / a dict, handed back by from_bytes, user subclasses with and
   without `__slots__`, a row a DataFrame holds) × the class variant; every decoded row is serialised again, every row
-  object is serialised three times with `nbytes()` in between.
+  object is serialised three times with `nbytes()` in between.;
+* one row object used several times (`kind: obj`): `as_bytes` / `nbytes()` / the other members in any order, **in-place edits of the
+  lists and maps inside the row** (`e+` / `e-` / `e=`: a `Row` is an immutable tuple, what it holds need not be) and copies of
+  the object (`cp` / `dcp` / `pk`) in between: every record is judged against the items the object holds AT THAT MOMENT
+  (`Model/RowObject.lean`, theorems `object_history_irrelevant`, `records_follow_edits`).
 
 Totality: whatever a call into orso returns or raises is mapped to an outcome the oracle judges (`classify_row`,
 `impl_decode`, `impl_encode`, `judge_emitted`, `judge_altered`); nothing the implementation does can end the run with a
@@ -402,6 +406,9 @@ def model_forms(text, what):
     return wire.dec_all(text[3:])
 
 
+_LAST_FRAME = [False]
+
+
 def make_row_object(case):
     """The row *object* a case serialises.  `obj` says how it is obtained (as_bytes is one property shared by all of
     them, but what the object is — an instance with or without a `__dict__`, built by which constructor — is
@@ -410,6 +417,7 @@ def make_row_object(case):
     (instances of a user subclass of the case's class with / without `__slots__ = ()`), `frame` (the row a
     `DataFrame` made and sized in `append`)."""
     row = case["row"]
+    _LAST_FRAME[0] = False
     R = row_class(len(row), case.get("cls"))
     values = tuple(to_py(x, case.get("tuples", False)) for x in row)
     how = case.get("obj", "tuple")
@@ -431,7 +439,7 @@ def make_row_object(case):
             raise
         except BaseException as e:
             raise _NoObject("from_bytes of its own record raises %s" % _exc_name(e))
-        if not isinstance(obj, tuple) or not hasattr(obj, "as_bytes"):
+        if not isinstance(obj, tuple) or not hasattr(type(obj), "as_bytes"):
             raise _NoObject("from_bytes of its own record returns %s" % type(obj).__name__)
         return obj
     if how == "frame" and not case.get("cls"):
@@ -444,7 +452,8 @@ def make_row_object(case):
             df = DataFrame(schema=["c%d" % i for i in range(len(values))])
             df.append({"c%d" % i: v for i, v in enumerate(values)})
             obj = df._rows[-1]
-            if isinstance(obj, tuple) and hasattr(obj, "as_bytes"):
+            if isinstance(obj, tuple) and hasattr(type(obj), "as_bytes"):
+                _LAST_FRAME[0] = True  # sized once by `DataFrame.append` (dataframe.py:153)
                 return obj
         except KeyboardInterrupt:
             raise
@@ -507,7 +516,7 @@ def impl_reencode(case, rec):
     row = case["row"]
     kept = []
     got, exc = impl_decode(len(row), rec, case.get("cls"), keep=kept)
-    if got[0] != "ok" or not kept or not hasattr(kept[0], "as_bytes"):
+    if got[0] != "ok" or not kept or not hasattr(type(kept[0]), "as_bytes"):
         return None
     try:
         from orso.exceptions import DataError
@@ -1455,7 +1464,70 @@ def big_append(ctx, c, item, m):
 
 # --------------------------------------------------------------------------- one row object used several times
 
-OBJ_CALLS = ("a", "n", "map", "dict", "vals", "keys", "get", "json", "hash", "iter", "fb", "cmp")
+OBJ_EDITS = ("e+", "e-", "e=")
+OBJ_COPIES = ("cp", "dcp", "pk")  # from here on the calls go to copy.copy / copy.deepcopy / a pickle round trip of the object
+OBJ_CALLS = ("a", "n", "map", "dict", "vals", "keys", "get", "json", "hash", "iter", "fb", "fbe", "cmp") + OBJ_EDITS + OBJ_COPIES
+
+
+def obj_copy(obj, how):
+    """A copy of the row object made by the standard library (it carries the instance `__dict__` along: whatever was kept on the
+    original is kept on the copy).  -> (object to go on with, outcome).  The original is kept when no copy can be made or the copy
+    does not hold the same items (copying is not C01's subject)."""
+    import copy
+    import pickle
+
+    try:
+        new = copy.copy(obj) if how == "cp" else (copy.deepcopy(obj) if how == "dcp" else pickle.loads(pickle.dumps(obj)))
+        if type(new) is not type(obj) or not wire.same([canon(x) for x in new], [canon(x) for x in obj]):
+            return obj, "another-object"
+        return new, "ok"
+    except KeyboardInterrupt:
+        raise
+    except BaseException as e:
+        return obj, _exc_name(e)
+
+
+def edit_in_place(v, how):
+    """An in-place edit of every list / map INSIDE `v` (a `Row` is an immutable tuple; what it holds need not be): `e+` appends an
+    element / adds a key, `e-` drops the last element / entry, `e=` replaces the first scalar element / value.  Tuples (the row
+    itself) are walked, not changed; a list is left alone when the edit would turn it into the reserved two-element form (outside
+    the property's domain).  -> number of containers changed."""
+    n = 0
+    if isinstance(v, (list, tuple)):
+        for x in v:
+            n += edit_in_place(x, how)
+        if isinstance(v, list):
+            new, changed = list(v), False
+            if how == "e+":
+                new.append(len(v))
+                changed = True
+            elif how == "e-" and new:
+                new.pop()
+                changed = True
+            elif how == "e=" and new and not isinstance(new[0], (list, dict, tuple)):
+                new[0] = (new[0] + "!") if isinstance(new[0], str) else "edited"
+                changed = True
+            if changed and not is_reserved(canon(new)):
+                v[:] = new
+                n += 1
+    elif isinstance(v, dict):
+        for x in list(v.values()):
+            n += edit_in_place(x, how)
+        if how == "e+":
+            k = len(v)
+            while ("+%d" % k) in v:
+                k += 1
+            v["+%d" % k] = None
+            n += 1
+        elif how == "e-" and v:
+            v.popitem()
+            n += 1
+        elif how == "e=" and v:
+            k = next(iter(v))
+            if not isinstance(v[k], (list, dict, tuple)):
+                v[k] = (v[k] + "!") if isinstance(v[k], str) else "edited"
+                n += 1
+    return n
 
 
 def obj_touch(obj, call):
@@ -1526,14 +1598,37 @@ def obj_run(c):
         info["noobj"] = _exc_name(e)
         return info
     info["has_dict"] = hasattr(obj, "__dict__")
+    # a row a DataFrame stored has been sized once already (`append` -> `nbytes`): for the model that is a first `nbytes` call
+    info["presized"] = bool(c.get("obj") == "frame" and _LAST_FRAME[0])
+    if info["presized"]:
+        info["ops"].append(["n", 0])
     last = None
+    cur = list(row)  # the items of the object as they are now
+    last_row = cur
     for call in c["calls"]:
+        if call in OBJ_EDITS:
+            # the caller edits the lists / maps inside the row in place; what the object holds now is read off the object itself
+            try:
+                changed = edit_in_place(obj, call)
+                cur = [canon(x) for x in obj]
+            except KeyboardInterrupt:
+                raise
+            except BaseException as e:
+                info["edit_failed"] = _exc_name(e)
+                break
+            if not valid_row(cur):
+                info["edit_failed"] = "the edited row is outside the value domain"
+                break
+            info["ops"].append(["e", cur])
+            info["outs"].append(["edited", cur, changed])
+            continue
         if call == "a":
             try:
                 rec = obj.as_bytes
                 if isinstance(rec, bytes):
                     out = ["ok", rec]
                     last = rec
+                    last_row = cur
                 else:
                     out = ["err", "returns %s instead of bytes" % type(rec).__name__]
             except KeyboardInterrupt:
@@ -1567,7 +1662,30 @@ def obj_run(c):
         elif call == "fb":
             # the last record decoded once more (the same `bytes` object handed to the decoder a second, third time)
             if last is not None:
-                info["fb"].append((last, impl_decode(len(row), last, c.get("cls"))))
+                info["fb"].append((last, impl_decode(len(row), last, c.get("cls")), last_row))
+        elif call == "fbe" and os.environ.get("C01_NO_FBE"):
+            pass  # self-test switch: what the check sees without this call (design_notes/C01.md, N8)
+        elif call == "fbe":
+            # the last record decoded, the lists / maps inside the DECODED row edited in place (its owner may do that), the same
+            # buffer decoded again: the second reader must get the row that was serialised, not the first reader's edits
+            # (two decoded rows must not share their nested values)
+            if last is not None:
+                got = []
+                impl_decode(len(row), last, c.get("cls"), got)
+                try:
+                    if got and isinstance(got[0], tuple):
+                        for how in OBJ_EDITS:
+                            edit_in_place(got[0], how)
+                except KeyboardInterrupt:
+                    raise
+                except BaseException:
+                    pass
+                info["fb"].append((last, impl_decode(len(row), last, c.get("cls")), last_row))
+                info.setdefault("keepalive2", []).append(got)
+        elif call in OBJ_COPIES:
+            obj, res = obj_copy(obj, call)
+            info["touched"].append((call, res))
+            info.setdefault("keepalive2", []).append(obj)
         else:
             info["touched"].append((call, obj_touch(obj, call)))
     return info
@@ -1585,17 +1703,36 @@ def eval_obj(ctx, c, info, mo):
         return
     m = model_forms(mo, "objseq")[0]
     row = c["row"]
-    names = [x for x in c["calls"] if x in ("a", "n")]
+    if info.get("presized"):
+        m = m[1:]  # the sizing `DataFrame.append` did before the first call of the case
+        ctx.hit("obj:sized-by-DataFrame.append")
+    if info.get("edit_failed"):
+        ctx.hit("obj:edit-not-possible:" + info["edit_failed"])
     if len(m) != len(info["outs"]):
         raise InfraError("objseq: %d answers for %d calls" % (len(m), len(info["outs"])))
     before = []
     k = 0
+    edited = False
     for call in c["calls"]:
+        if k >= len(info["outs"]):
+            break  # an edit could not be made: the calls after it were not run
+        if call in OBJ_EDITS:
+            out, mout = info["outs"][k], m[k]
+            k += 1
+            if list(mout) != ["edited"]:
+                raise InfraError("objseq: the model answers %r to an edit" % (mout,))
+            row = out[1]  # from here on THE row is what the object holds now
+            edited = edited or out[2] > 0
+            ctx.hit("obj-edit:%s->%s" % (call, "nothing-to-edit" if out[2] == 0 else "%d-container%s" % (min(out[2], 3), "s" if out[2] > 1 else "")))
+            before.append(call)
+            continue
         if call not in ("a", "n"):
             before.append(call)
             continue
         out, mout = info["outs"][k], m[k]
         k += 1
+        if call == "a" and edited:
+            ctx.hit("obj:serialised-after-an-in-place-edit" + ("-of-a-sized-row" if ("n" in before or info.get("presized")) else ""))
         if call == "a":
             # oracle: every record one object emits is a record the encoder emits -- the decoder accepts it, the row is equal
             if out[0] == "ok":
@@ -1617,10 +1754,11 @@ def eval_obj(ctx, c, info, mo):
                 ctx.disagree(c, {"call": len(before), "nbytes": out}, {"nbytes": mout}, "Row.nbytes on a row object used several times differs from the model")
                 return
         before.append(call)
-    for rec, (g, exc) in info["fb"]:
-        cl = judge_emitted(g, exc, row)
+    for rec, (g, exc), rrow in info["fb"]:
+        cl = judge_emitted(g, exc, rrow)
         if cl is not None:
-            _fail_obj(ctx, c, cl[0] + " [the same buffer decoded again]", {"record": rec, "got": cl[1]}, None)
+            _fail_obj(ctx, c, cl[0] + " [the same buffer decoded again%s]" % (" after the row decoded from it first was edited in place" if "fbe" in c["calls"] else ""),
+                      {"record": rec, "got": cl[1]}, None)
             return
 
 
@@ -1656,7 +1794,7 @@ def _fail_obj(ctx, c, clause, impl, model):
             if info["noobj"] is not None:
                 return False
             # the model's answer is not needed to re-judge the oracle: give every call "ok"
-            fake = [["ok", o[1]] if o[0] == "ok" else ["err", o[1]] for o in info["outs"]]
+            fake = list(info["outs"])
             _eval_obj_oracle(_C(), case, info, fake)
         finally:
             _RECORD_HISTORY[0] = keep
@@ -1701,6 +1839,13 @@ def _eval_obj_oracle(ctx, c, info, m):
     before = []
     k = 0
     for call in c["calls"]:
+        if k >= len(info["outs"]):
+            break
+        if call in OBJ_EDITS:
+            row = info["outs"][k][1]
+            k += 1
+            before.append(call)
+            continue
         if call not in ("a", "n"):
             before.append(call)
             continue
@@ -1717,8 +1862,8 @@ def _eval_obj_oracle(ctx, c, info, m):
                 ctx.fail(c, "the encoder refuses a row of the value domain (%s)" % out[1])
                 return
         before.append(call)
-    for rec, (g, exc) in info["fb"]:
-        cl = judge_emitted(g, exc, row)
+    for rec, (g, exc), rrow in info["fb"]:
+        cl = judge_emitted(g, exc, rrow)
         if cl is not None:
             ctx.fail(c, cl[0])
             return
@@ -1739,14 +1884,31 @@ def obj_cases(ctx, rng):
             if cls:
                 case["cls"] = cls
             out.append(case)
+    # in-place edits of the lists / maps inside the row between the calls: sized (nbytes / DataFrame.append) or serialised or
+    # viewed (as_map, as_dict, as_json) first, then edited, then serialised -- the record must be that of the row as it is NOW
+    edit_fixed = (["n", "e+", "a"], ["a", "e+", "a"], ["e-", "a"], ["n", "e-", "a", "n"], ["a", "n", "e=", "a", "fb"], ["map", "dict", "e+", "a"],
+                  ["n", "e+", "e-", "a"], ["dict", "n", "e=", "json", "a"], ["n", "a", "e+", "n", "a", "fb", "e-", "a", "fb"], ["hash", "e=", "n", "e+", "a"],
+                  ["n", "dcp", "e+", "a"], ["a", "cp", "e-", "a", "n"], ["n", "pk", "e=", "a"], ["a", "fbe", "fbe"], ["n", "e+", "a", "fbe", "a", "fb"])
+    edit_rows = ([[1, 2], {"k": [1, 2], "s": "x"}, 7], [[], {}], [[[[]]]], [None, True, -1, 2.5, "é", b"\x00", [1, [2]], {"k": [None]}], [{"a": {"b": {"c": [0.0, -0.0]}}}],
+                 [["__datetime__"], ["__datetime__", 1, 2], 0])
+    for i, calls in enumerate(edit_fixed):
+        for j, (cls, how) in enumerate(kinds):
+            case = {"kind": "obj", "row": edit_rows[(i + j) % len(edit_rows)], "calls": list(calls), "obj": how}
+            if cls:
+                case["cls"] = cls
+            out.append(case)
     for _ in range(ctx.scale(60, 1500)):
         cls, how = kinds[rng.randrange(len(kinds))]
         calls = [OBJ_CALLS[rng.randrange(len(OBJ_CALLS))] if rng.random() < 0.5 else ("a" if rng.random() < 0.6 else "n") for _ in range(rng.randrange(2, 9))]
-        if not any(x in ("a", "n") for x in calls):
+        if rng.random() < 0.4:
+            calls.insert(rng.randrange(1, len(calls) + 1), OBJ_EDITS[rng.randrange(len(OBJ_EDITS))])
+        if not any(x in ("a", "n") for x in calls) or calls[-1] in OBJ_EDITS:
             calls.append("a")
-        row = random_row(rng)["row"] if rng.random() < 0.7 else rows[rng.randrange(len(rows))]
+        row = random_row(rng)["row"] if rng.random() < 0.7 else (rows + edit_rows)[rng.randrange(len(rows) + len(edit_rows))]
         if not valid_row(row):
             row = [0]
+        if any(x in OBJ_EDITS for x in calls) and not any(isinstance(x, (list, dict)) for x in row):
+            row = list(row) + [[len(row)], {"k": []}]
         case = {"kind": "obj", "row": row, "calls": calls, "obj": how}
         if cls:
             case["cls"] = cls
